@@ -526,7 +526,12 @@ impl<'de, R: Read<'de>> Parser<R> {
                 let next = self.peek_or_null()?;
                 // A sign followed by a dot starts a peculiar identifier such as
                 // `-.a` (R7RS 7.1.1); numbers need a digit before the dot.
-                if next == 0 || is_delimiter(next) || is_sign_subsequent(next) || next == b'.' {
+                if next == 0
+                    || is_delimiter(next)
+                    || is_sign_subsequent(next)
+                    || next == b'.'
+                    || next > 127
+                {
                     let name = self.parse_symbol_suffix("-")?;
                     self.symbol_token(name)
                 } else {
@@ -538,7 +543,12 @@ impl<'de, R: Read<'de>> Parser<R> {
                 let next = self.peek_or_null()?;
                 // A sign followed by a dot starts a peculiar identifier such as
                 // `+.a` (R7RS 7.1.1); numbers need a digit before the dot.
-                if next == 0 || is_delimiter(next) || is_sign_subsequent(next) || next == b'.' {
+                if next == 0
+                    || is_delimiter(next)
+                    || is_sign_subsequent(next)
+                    || next == b'.'
+                    || next > 127
+                {
                     let name = self.parse_symbol_suffix("+")?;
                     self.symbol_token(name)
                 } else {
